@@ -15,10 +15,10 @@ func init() {
 // Partial type switches over container that are correct because the remaining kinds need no action
 // there. Confirmed by reading; keyed by function and the exact set of handled kinds.
 var partialKindSwitches = map[string]string{
-	"roaring.repairAfterLazy":              "bitmapContainer",              // only bitmap containers carry the lazy sentinel
-	"(*roaring.Bitmap).repairAfterLazy":     "bitmapContainer",              // idem
-	"roaring.toBitmapContainer":            "arrayContainer,runContainer16", // a bitmap container is returned as is
-	"(*roaring.roaringArray).writeTo":      "runContainer16",               // run-flag bitmap: only runs set a bit (offset loop has a default)
+	"roaring.repairAfterLazy":                   "bitmapContainer",               // only bitmap containers carry the lazy sentinel
+	"(*roaring.Bitmap).repairAfterLazy":         "bitmapContainer",               // idem
+	"roaring.toBitmapContainer":                 "arrayContainer,runContainer16", // a bitmap container is returned as is
+	"(*roaring.roaringArray).writeTo":           "runContainer16",                // run-flag bitmap: only runs set a bit (offset loop has a default)
 	"(*roaring.roaringArray).hasRunCompression": "runContainer16",
 }
 
